@@ -198,9 +198,43 @@ def _docs(tier):
 GRID_PAIRS = [(7, 3), (5, 3), (7, 5), (11, 3), (9, 7), (12, 5), (13, 2), (16, 7), (48, 7), (32, 3), (24, 5)]
 
 
+LARGE = dict(quick=[(30, False), (300, True)], thorough=[(30, False), (300, True), (300, False), (999, True)])
+
+
+def check_large(measures, late_offline, ctx):
+    """size: hundreds of measures with 8 objects each (holds, mines, rolls among them), tempo changes on measure lines far into
+    the chart and - late_offline - one on a quarter beat past beat 1000 (beats of four digits in #BPMS)."""
+    doc = default_doc()
+    notes = []
+    i = 0
+    for m in range(measures):
+        for k in range(8):
+            b = F(4 * m) + F(k, 2)
+            c = (m + k) % 4
+            kind = "hold" if i % 13 == 6 else "roll" if i % 29 == 11 else "mine" if i % 17 == 3 else "hit"
+            notes.append((kind, b, c, F(1) if kind in ("hold", "roll") else None))
+            i += 1
+    doc["charts"][0]["notes"] = notes
+    bp = [(F(0), F(120))] + [(F(4 * m), F(v)) for m, v in ((100, 90), (200, 180), (260, 60)) if m < measures]
+    if late_offline and measures > 280:
+        bp.append((F(1101) + F(1, 4), F(150)))
+    doc["bpms"] = bp
+    case = dict(large=[measures, late_offline])
+    ctx.case()
+    ctx.state(("sm-large", measures, late_offline), nontrivial=True)
+    site = dict(route="constructor", devs=["large"])
+    try:
+        ms, dens, segs = build_mapset(doc)
+    except Exception as e:
+        ctx.check("setup", False, site=dict(site, exc=type(e).__name__), case=case, observed=f"{type(e).__name__}: {e}"[:300], expected="mapset built from items")
+        return
+    on_lines = all((b - doc["bpms"][0][0]) % 4 == 0 for b, _ in doc["bpms"])
+    judge(ms, dens, on_lines, float(min(v for _, v in doc["bpms"])), site, case, ctx)
+
+
 def roots(tier, seed):
     n = len(_docs(tier))
-    return [dict(kind="docs", start=s, stop=min(n, s + CHUNK)) for s in range(0, n, CHUNK)] + [dict(kind="routes")] + [dict(kind="grid", pair=list(p)) for p in GRID_PAIRS]
+    return [dict(kind="large", args=list(a)) for a in LARGE[tier]] + [dict(kind="docs", start=s, stop=min(n, s + CHUNK)) for s in range(0, n, CHUNK)] + [dict(kind="routes")] + [dict(kind="grid", pair=list(p)) for p in GRID_PAIRS]
 
 
 def check_grid(a, b, ctx):
@@ -216,6 +250,9 @@ def check_grid(a, b, ctx):
 
 
 def explore(root, tier, ctx):
+    if root["kind"] == "large":
+        check_large(root["args"][0], root["args"][1], ctx)
+        return
     if root["kind"] == "grid":
         check_grid(root["pair"][0], root["pair"][1], ctx)
         return
@@ -232,6 +269,8 @@ def explore(root, tier, ctx):
 def replay(case, ctx):
     if "grid" in case:
         check_grid(case["grid"][0], case["grid"][1], ctx)
+    elif "large" in case:
+        check_large(case["large"][0], case["large"][1], ctx)
     elif "route" in case:
         check_route(case["route"], ctx)
     else:
